@@ -259,11 +259,13 @@ CLAIMED = {
             "doubling in both branches of its trace test; bn_rec_tnaf_mod + bn_rec_tnaf give digits denoting k modulo tau^m - 1 in any commutative "
             "ring with tau^2 = mu tau - 2, and the loops of eb_mul_basic / lwnaf / rwnaf (ordinary and Koblitz, with the tables of eb_tab) / "
             "lodah ladder / halve (cofactor-2 branch) / fix_basic / fix_combs / fix_lwnaf / sim_trick / sim_inter / sim_joint return k•P "
-            "(k•P + m•Q). The driver evaluates the specification through fast evaluators proved equal to it. PARTIAL / known findings "
-            "C16-1..C16-16 (known_findings.json, findings/): fb_inv(1) unreduced, fb_rdc_basic(0) faults, fb2_slv wrong for Tr(a0) = 1, "
-            "fb_cmp_dig, the point of order two in the affine routines and in compression, eb_hlv(O), eb_norm / eb_norm_sim on separate results "
-            "and on projective identities (silently wrong eb_mul_sim_trick / joint), eb_mul_lodah(O), projective operands of lodah / halve / "
-            "rwnaf, scalars longer than r (silently wrong in lodah / fix_basic / comb, refused elsewhere), stack overflow of bn_rec_tnaf. "
+            "(k•P + m•Q) — for EVERY integer k where the code reduces the scalar (lodah, fix_basic, fix_combs modulo r; the Koblitz lwnaf / rwnaf / "
+            "fix_lwnaf modulo h*r). The driver evaluates the specification through fast evaluators proved equal to it. Fourteen defects found by "
+            "this check were repaired in /repo (fix commits of C16-1..C16-13, C16-15: fb_inv(1), fb_rdc_basic(0), fb2_slv, fb_cmp_dig, the point of "
+            "order two in the affine routines and in compression, eb_hlv(O), eb_norm / eb_norm_sim, eb_mul_lodah(O), projective operands, scalars "
+            "longer than r, the tau-NAF stack overflow); the models follow the repaired code. Known findings left: C16-14 (w-NAF routines on ordinary "
+            "curves, sim_trick / sim_joint refuse scalars longer than m bits - reported error), C16-15 (bn_rec_tnaf called directly overruns a short "
+            "buffer; a bound cannot pass the pinned test_bn), C16-16 (fb_exp_slide refuses exponents longer than m + 1 bits). "
             "Tie: ~3400 lines per run (every fb_* / fb2_* / eb_* variant by name, every element / point / scalar class of the quantifier, alias "
             "patterns, affine / projective / lambda representations), model column = the Lean model of the C algorithm, spec column = the "
             "GF(2)[z] / affine-law specification.",
